@@ -1013,6 +1013,15 @@ class Tom:
         if m == "delete":
             if a0 and a0[0] == "w":
                 self._structural(world, "delete", a0[1], c)
+            elif c.args:
+                # a child of unknown kind is removed (e.g. `for child in self.children: self.delete(child)`): it may be an item of any
+                # scheme of this owner, so every position map is obsolete and every wrapper index may hold detached wrappers
+                for mp in MAPS[o.kind]:
+                    o.maps[mp] = DIRTY
+                    if o.idx[mp] != EMPTY:
+                        o.idx[mp] = STALE
+                self.stats["structural_mutations"] += 1
+                self._owner_mutation(world, c)
             return None
         if m == "extend":
             kindmap = list(MAPS[o.kind])[0]
